@@ -85,6 +85,24 @@ def handleCase (line : String) : String :=
         answer "=" s!"read={spec} patch={spec}" [] (some s!"read={rd} patch={pt}")
       | none => bad
     | _ => bad
+  | "names2" :: fs =>
+    -- `names2 <cat> <ex> <chunk> <dat> <platform of .index> <of .index2> <of .dat> <order>`: one patch
+    -- with several TargetInfo commands; each file carries the tag of the platform in force at its
+    -- command (`order` < 6 = the order of the three commands in the patch; the names do not depend on it)
+    match nats fs with
+    | some [cat, ex, chunk, dat, pi, pi2, pd, ord] =>
+      match platformString pi, platformString pi2, platformString pd with
+      | some ti, some ti2, some td =>
+        if ord ≥ 6 then bad else
+        let folder := bstr (repoName ex)
+        let spec := s!"{folder}/{bstr (Spec.Paths.indexName cat ex chunk ti)},{folder}/{bstr (Spec.Paths.index2Name cat ex chunk ti2)},{folder}/{bstr (Spec.Paths.datName cat ex chunk td dat)}"
+        let rd := s!"{folder}/{bstr (indexFilename cat ex chunk ti)},{folder}/{bstr (index2Filename cat ex chunk ti2)},{folder}/{bstr (datFilename cat ex chunk td dat)}"
+        let sub := ex * 256 + chunk
+        let pf := bstr (patchFolder sub)
+        let pt := s!"{pf}/{bstr (patchIndexFilename cat sub ti 0)},{pf}/{bstr (patchIndexFilename cat sub ti2 2)},{pf}/{bstr (patchDatFilename cat sub td dat)}"
+        answer "=" s!"read={spec} patch={spec}" [] (some s!"read={rd} patch={pt}")
+      | _, _, _ => bad
+    | _ => bad
   | [op, l] =>
     if op != "sort" && op != "discover" then bad else
     match natList l with
